@@ -3,8 +3,12 @@ import random
 
 import numpy as np
 
+import cmath
+
 from common import Driver, Report, lean_obligations, err_class
 import cqsem
+import cyc8
+import qgen
 from cqsem import Sem, TOL
 
 PROP = "C12"
@@ -12,6 +16,7 @@ PROP = "C12"
 F3_SIG = "eval_crash:override_bits:Dim_has_no_classical"
 F21_SIG = "measure_pure_path_on_classical_circuit"
 F22_SIG = "encode_variant_declared_with_wrong_type"
+F5K_SIG = "get_counts_plain_path_on_non_mixed_circuit_with_amplitudes"
 
 
 # ------------------------------------------------------------------ box pools
@@ -88,13 +93,113 @@ def unitary(rng, exact=True):
     return rng.choice(pool)
 
 
-def scalar_box(rng):
+# Scalar boxes with data in EVERY region of the complex plane, in every form the library offers:
+#   scalar(z)                 amplitude z, doubled |z|^2
+#   sqrt(z) / gates.Sqrt(z)   amplitude = principal root r of z, doubled |r|^2 = |z| (NOT z: only for z >= 0)
+#   class MySqrt(Sqrt) / MyScalar(Scalar)   trivial user subclasses of the two
+#   scalar(z, is_mixed=True)  the weight z itself in the mixed evaluation (any value, also negative / complex)
+# exact data (roots in Z[zeta_8][1/2], so that the model is compared) and float data (oracle only).
+SCALAR_FORMS = ("sqrt", "scalar", "MySqrt", "MyScalar", "mixed")
+SCALAR_REGIONS = ("positive", "negative", "imaginary", "complex", "zero")
+UNIT_ROOTS = [(1, 0, 0, 0, 0), (0, 0, 1, 0, 0), (0, 1, 0, 0, 0), (0, 0, 0, -1, 0)]      # sqrt(1), (-1), (i), (-i)
+UNIT_SCALARS = [(-1, 0, 0, 0, 0), (0, 0, 1, 0, 0), (0, 0, -1, 0, 0), (0, 1, 0, 0, 0), (0, 0, 0, 1, 0),
+                (0, -1, 0, 0, 0), (1, 0, 0, 0, 0)]
+ALL_EXACT_SCALARS = qgen.EXACT_SCALARS + qgen.EXACT_SCALARS_EXTRA
+
+
+def data_region(z):
+    z = complex(z)
+    if abs(z) < 1e-12:
+        return "zero"
+    if abs(z.imag) <= 1e-12 * abs(z):
+        return "positive" if z.real > 0 else "negative"
+    if abs(z.real) <= 1e-12 * abs(z):
+        return "imaginary"
+    return "complex"
+
+
+def _by_region(pool, value):
+    out = {}
+    for t in pool:
+        out.setdefault(data_region(value(t)), []).append(t)
+    return out
+
+
+ROOTS_BY_REGION = _by_region(qgen.EXACT_ROOTS, lambda w: cyc8.to_complex(cyc8.mul(w, w)))
+SCALARS_BY_REGION = _by_region(ALL_EXACT_SCALARS, cyc8.to_complex)
+
+
+def scalar_amplitude(box):
+    """The amplitude a pure scalar box stands for, from its DATA (not from `box.array`): the
+    principal square root for a Sqrt, the datum otherwise."""
     _, g = lib()
-    z = rng.choice([0.5, 2, 1j, -1, 1 + 1j, 0.5 - 0.5j, 0.25])
+    z = complex(box.data)
+    return cmath.sqrt(z) if isinstance(box, g.Sqrt) else z
+
+
+def is_unit_scalar(box):
+    _, g = lib()
+    return isinstance(box, g.Scalar) and not box.is_mixed and not getattr(box, "free_symbols", None) \
+        and abs(abs(scalar_amplitude(box)) - 1.0) <= 1e-12
+
+
+def region_scalar(rng, form=None, region=None, exact=True, unit=False):
+    """One scalar box of the given form (SCALAR_FORMS) with data in the given region
+    (SCALAR_REGIONS; any if None).  `unit`: a global phase (modulus one: a unitary on no qubit).
+    Data of every Python number type a user may type (int / float / complex / numpy)."""
+    _, g = lib()
+    form = form or rng.choice(SCALAR_FORMS[:4] if unit else SCALAR_FORMS)
+    is_root = form in ("sqrt", "MySqrt")
+    if not exact:
+        if unit:
+            z = cmath.exp(1j * round(rng.uniform(-3.1, 3.1), 3))
+        else:
+            mag = round(rng.uniform(0.05, 3), 3)
+            region = region or rng.choice(SCALAR_REGIONS[:4])
+            z = {"positive": mag, "negative": -mag, "imaginary": complex(0, mag * rng.choice((1, -1))),
+                 "zero": 0.0}.get(region)
+            if z is None:
+                z = complex(round(rng.uniform(-3, 3), 3) or 0.7, round(rng.uniform(-3, 3), 3) or -0.3)
+        desc = ("Z", None, None, z) if is_root else ("S", None, z)
+    elif is_root:
+        pool = UNIT_ROOTS if unit else ROOTS_BY_REGION.get(region) or qgen.EXACT_ROOTS
+        w = rng.choice(pool)
+        zt = cyc8.mul(w, w)
+        types = ["auto", "auto", "complex", "np.complex128"]
+        if cyc8.is_real(zt) and cyc8.to_complex(zt).real >= 0:
+            types += ["float", "np.float64"]
+        desc = qgen.sqrt_exact(w, rng.choice(types))
+    else:
+        pool = UNIT_SCALARS if unit else SCALARS_BY_REGION.get(region) or ALL_EXACT_SCALARS
+        t = rng.choice(pool)
+        desc = ("S", t, qgen.number_of(t, rng.choice(["auto", "auto", "complex", "np.complex128"])))
+    if form == "mixed":
+        return g.scalar(desc[2], is_mixed=True)
+    return qgen.build(("U", desc) if form.startswith("My") else desc)
+
+
+def scalar_form(box):
+    _, g = lib()
+    if box.is_mixed:
+        return "mixed"
+    base = "sqrt" if isinstance(box, g.Sqrt) else "scalar"
+    return base if type(box) in (g.Sqrt, g.Scalar) else "My" + base.capitalize()
+
+
+def scalar_box(rng, mixed_ok=True):
+    """A scalar box for the random circuit families: every form, every region, mostly exact."""
     r = rng.random()
-    if r < 0.2:
-        return g.sqrt(2)
-    return g.scalar(z, is_mixed=(r < 0.5))
+    form = "sqrt" if r < 0.35 else "scalar" if r < 0.6 else "MySqrt" if r < 0.67 else "MyScalar" \
+        if r < 0.72 else "mixed"
+    if form == "mixed" and not mixed_ok:
+        form = rng.choice(("sqrt", "scalar"))
+    return region_scalar(rng, form, rng.choice(SCALAR_REGIONS[:4] * 3 + SCALAR_REGIONS[4:]),
+                         exact=rng.random() < 0.85)
+
+
+def phase_box(rng):
+    """A global phase: a pure scalar box of modulus one (sqrt(-1), sqrt(1j), scalar(-1), ...)."""
+    return region_scalar(rng, exact=rng.random() < 0.85, unit=True)
 
 
 def some_type(rng, n, kinds="bq"):
@@ -129,7 +234,10 @@ def candidates(rng, cls, tag):
                 stochastic_gate(rng, tag), deterministic_gate(rng, tag), g.Copy(),
                 qc.Swap(qc.bit, qc.bit)]
     if cls == "pure_tp":                                     # preparations and unitaries only
-        return [ket, unitary(rng), unitary(rng), unitary(rng)]
+        out = [ket, unitary(rng), unitary(rng), unitary(rng)]
+        if rng.random() < 0.4:
+            out.append(phase_box(rng))                           # a unitary on no qubit
+        return out
     if cls == "classical":                                   # bits and non-mixed classical gates
         out += [g.Bits(*[rng.randrange(2) for _ in range(rng.choice([1, 1, 2]))]),
                 stochastic_gate(rng, tag), deterministic_gate(rng, tag), g.Copy(), g.Match(),
@@ -143,9 +251,8 @@ def candidates(rng, cls, tag):
             out.append(unitary(rng, exact=False))
         if rng.random() < 0.25:
             out.append(g.Bra(*[rng.randrange(2) for _ in range(rng.choice([1, 1, 2]))]))
-        if rng.random() < 0.25:
-            s = scalar_box(rng)
-            out.append(s if not s.is_mixed else g.scalar(1j))
+        if rng.random() < 0.6:
+            out.append(scalar_box(rng, mixed_ok=False))
         return out
     bits = g.Bits(*[rng.randrange(2) for _ in range(rng.choice([1, 1, 2]))])
     n = rng.choice([1, 1, 2])
@@ -157,6 +264,8 @@ def candidates(rng, cls, tag):
             qc.Swap(some_type(rng, 1), some_type(rng, 1))]
     if rng.random() < 0.1:
         out.append(unitary(rng, exact=False))
+    if rng.random() < 0.5:
+        out.append(phase_box(rng))                               # global phases are trace-preserving
     if cls == "tp":
         return out
     out += [qc.MixedState(some_type(rng, rng.choice([1, 1, 2]))),
@@ -210,6 +319,8 @@ def box_tag(box):
         return "Measure(d=%d,o=%d)" % (box.destructive, box.override_bits)
     if isinstance(box, qc.Encode):
         return "Encode(c=%d,r=%d)" % (box.constructive, box.reset_bits)
+    if isinstance(box, g.Sqrt):
+        return "Sqrt"
     for cls in (qc.Discard, qc.MixedState, qc.Swap, g.Copy, g.Match, g.Bits, g.Ket, g.Bra,
                 g.Scalar, g.Rotation, g.ClassicalGate, g.QuantumGate):
         if isinstance(box, cls):
@@ -350,6 +461,8 @@ def tp_class(c):
             continue
         if isinstance(b, (g.QuantumGate, g.Rotation)):
             continue
+        if is_unit_scalar(b):                                # a global phase: a unitary on no qubit
+            continue
         if isinstance(b, g.ClassicalGate) and not b.is_dagger and b.name[:2] in ("st", "fn"):
             continue
         return False
@@ -368,6 +481,24 @@ def is_distribution(p):
                 and abs(float(np.sum(p.real)) - 1.0) <= 1e-9)
 
 
+def counts_take_plain_path(c, got):
+    """The shape of finding F5k: the circuit get_counts() evaluates (zeros prepared, qubits
+    discarded) is not mixed, so `eval()` contracts it as a plain tensor — amplitudes of its pure
+    scalars / closed quantum parts enter the "counts" as they are instead of doubled — and the
+    counts returned are exactly the real parts of that plain tensor."""
+    qc, g = lib()
+    try:
+        full = c.init_and_discard()
+        if full.is_mixed or not any(
+                (isinstance(b, g.Scalar) and not b.is_mixed) or
+                any(not cqsem.is_bit(x) for x in (b.dom @ b.cod).objects) for b in full.boxes):
+            return False
+        plain = np.asarray(full.eval(mixed=False).array, dtype=complex)
+        return close(got, plain.real)
+    except Exception:  # noqa
+        return False
+
+
 def check_tp(rep, c, m, case, obs):
     """Clause (c).  `obs` caches what the real code returned (also used for the model)."""
     p = distribution_of(m)
@@ -383,7 +514,11 @@ def check_tp(rep, c, m, case, obs):
         for bits_, v in counts.items():
             got[tuple(bits_) if nbits else 0] = np.asarray(v).reshape(-1)[0]
         if not close(got, p):
-            rep.fail("get_counts_differs", case, "get_counts() = %r, eval gives %r" % (
+            sig = "get_counts_differs"
+            if counts_take_plain_path(c, got):
+                sig = F5K_SIG
+                obs["f5k"] = True
+            rep.fail(sig, case, "get_counts() = %r, eval gives %r" % (
                 {k: complex(np.asarray(v).reshape(-1)[0]) for k, v in counts.items()},
                 p.reshape(-1).tolist()))
     elif why != "f3":
@@ -445,6 +580,9 @@ def check_circuit(rep, drv, c, cls, model_budget, rng, adjoint=True):
     for t in tags:
         rep.count("box:" + t)
     rep.count("class:" + cls)
+    for b in c.boxes:
+        if isinstance(b, g.Scalar):
+            rep.count("scalar_box:%s:%s" % (scalar_form(b), data_region(b.data)))
     rep.count("width:%d" % max([len(c.dom)] + [len(left) + len(box.cod) + len(right)
                                                 for left, box, right in c.layers]))
     rep.count("boxes:%d" % len(c.boxes))
@@ -577,8 +715,13 @@ def check_circuit(rep, drv, c, cls, model_budget, rng, adjoint=True):
             if why is None:
                 return ser(val)
             return None if why == "f3" else "err " + err_class(why)
-        asks.append("cqcounts " + line)
-        reals.append(observed(obs["counts"], counts_answer))
+        if obs.get("f5k"):
+            # finding F5k was just reported for this circuit by the oracle; the model transcribes
+            # the repaired get_counts(), comparing would only repeat the finding
+            rep.count("model_skipped:f5k_reported")
+        else:
+            asks.append("cqcounts " + line)
+            reals.append(observed(obs["counts"], counts_answer))
         for flag in (0, 1):
             if flag == 0 and obs.get("f21"):
                 # finding F21 was just reported for this circuit by the oracle; the model
@@ -1557,6 +1700,131 @@ def born_stream(rep, rng, n_cases):
             rep.fail("mixedstate_not_adjoint", str(ty), "MixedState is not the adjoint of Discard")
 
 
+# ------------------------------------------------------------------ scalars of every region under the Born rule
+
+def small_state(rng, n):
+    """A pure state of n qubits: kets, then a few gates (exact entries)."""
+    qc, g = lib()
+    c = g.Ket(*[rng.randrange(2) for _ in range(n)])
+    for _ in range(rng.randint(1, 3)):
+        if n >= 2 and rng.random() < 0.35:
+            gate = rng.choice([g.CX, g.CZ, g.SWAP, g.CRz(0.5), g.CU1(0.25)])
+        else:
+            gate = rng.choice([g.H, g.H, g.X, g.Y, g.S, g.T, g.Rx(0.25), g.Ry(0.25), g.Rz(0.75)])
+        off = rng.randrange(n - len(gate.dom) + 1)
+        c = c >> qc.Id(off) @ gate @ qc.Id(n - len(gate.dom) - off)
+    return c
+
+
+def place_scalar(rng, c, s, where):
+    qc, _ = lib()
+    if where == "left":
+        return s @ c
+    if where == "right":
+        return c @ s
+    j = rng.randrange(len(c.boxes) + 1)
+    mid = c[:j].cod
+    off = rng.randrange(len(mid) + 1)
+    return c[:j] >> qc.Id(mid[:off]) @ s @ qc.Id(mid[off:]) >> c[j:]
+
+
+def scalar_born_stream(rep, drv, rng, rounds, budget, per_round=None):
+    """Clauses (a) and (b) on pure circuits that CONTAIN SCALAR BOXES, systematically: every form
+    (sqrt(z), scalar(z), user subclasses of both) x every region of the data (positive, negative,
+    imaginary, general complex, zero), exact and float data, one or two scalar boxes, placed left of,
+    right of, or inside a state of 1-2 qubits.  The pure amplitudes are those of the state times the
+    amplitude of each scalar box (the principal root of the data for sqrt, computed here from the
+    data); eval(mixed=True) must be the doubled map of eval(mixed=False); measuring gives
+    |amplitude|^2 — non-negative real numbers, whatever the phase or sign of the scalars — through
+    Measure, get_counts() and measure()."""
+    qc, g = lib()
+    for rd in range(rounds):
+        combos = [(f, r) for f in SCALAR_FORMS[:4] for r in SCALAR_REGIONS]
+        rng.shuffle(combos)
+        if per_round is not None:
+            # quick tier: sqrt of every region always, a rotating sample of the other forms
+            first = [x for x in combos if x[0] == "sqrt"]
+            combos = first + [x for x in combos if x[0] != "sqrt"][:per_round - len(first)]
+        for idx, (form, region) in enumerate(combos):
+            sub = random.Random(rng.getrandbits(64))
+            exact = not (form.startswith("My") and idx % 2) and (rd + idx) % 5 != 4
+            if region == "zero" and not exact:
+                exact = True
+            n = sub.choice([1, 1, 2])
+            boxes = [region_scalar(sub, form, region, exact=exact)]
+            if sub.random() < 0.3:
+                boxes.append(region_scalar(sub, sub.choice(SCALAR_FORMS[:4]), exact=exact,
+                                           unit=sub.random() < 0.5))
+            state = small_state(sub, n)
+            try:
+                bare = np.asarray(state.eval(mixed=False).array, dtype=complex).reshape(-1)
+                c = state
+                for s in boxes:
+                    c = place_scalar(sub, c, s, sub.choice(["left", "right", "inside"]))
+            except Exception as exc:  # noqa
+                rep.fail("construction_raises:" + err_class(exc),
+                         dict(state=describe(state), scalars=[repr(b) for b in boxes]), repr(exc))
+                continue
+            amp = complex(np.prod([scalar_amplitude(b) for b in boxes]))
+            psi = amp * bare                                  # the amplitudes the circuit stands for
+            prob = np.abs(psi) ** 2
+            case = dict(describe(c), scalars=["%s [data %s]" % (repr(b), qgen.show_number(b.data))
+                                              for b in boxes])
+            rep.case("scalar_born:" + repr(case), True)
+            rep.count("scalar_born:%s:%s:%s" % (form, region, "exact" if exact else "float"))
+            # (a) the circuit itself: amplitudes, doubling, model
+            first = check_circuit(rep, drv, c, "scalars", budget, sub, adjoint=(idx % 3 == 0))
+            if first is None:
+                continue
+            got, why = guarded(rep, c, "eval(mixed=False)", lambda: c.eval(mixed=False))
+            if why is not None:
+                rep.fail("eval_raises:" + err_class(why), case, "eval(mixed=False): " + repr(why))
+                continue
+            if not close(got.array, psi):
+                rep.fail("pure_eval_of_scalar_differs:" + form, case,
+                         "eval(mixed=False) = %s, state amplitudes times the scalars (%r) = %s" % (
+                             np.round(np.asarray(got.array).reshape(-1), 6).tolist()[:8], amp,
+                             np.round(psi, 6).tolist()[:8]))
+                continue
+            # (b) measuring every qubit gives the squared magnitudes: non-negative reals
+            meas = c >> qc.Measure(n)
+            results = {}
+            m, why = guarded(rep, meas, "eval()", lambda: meas.eval())
+            if why is None:
+                results["(c >> Measure(%d)).eval()" % n] = np.asarray(m.array, dtype=complex).reshape(-1)
+            else:
+                rep.fail("eval_raises:" + err_class(why), describe(meas), repr(why))
+            for name, fn in (("(c >> Measure(%d)).measure()" % n, lambda: meas.measure()),
+                             ("c.measure()", lambda: c.measure()),
+                             ("c.measure(mixed=True) [qubits discarded: total weight]",
+                              lambda: c.measure(mixed=True))):
+                res, why = guarded(rep, meas, name, fn)
+                if why is None:
+                    results[name] = np.asarray(res, dtype=complex).reshape(-1)
+                else:
+                    rep.fail("measure_raises:" + err_class(why), case, "%s raises %r" % (name, why))
+            counts, why = guarded(rep, meas, "get_counts()", lambda: meas.get_counts())
+            if why is None:
+                dense = np.zeros(2 ** n, dtype=complex)
+                from discopy.quantum.circuit import bitstring2index
+                for bits_, v in counts.items():
+                    dense[bitstring2index(bits_)] = np.asarray(v).reshape(-1)[0]
+                results["(c >> Measure(%d)).get_counts()" % n] = dense
+            else:
+                rep.fail("get_counts_raises:" + err_class(why), case, repr(why))
+            for name, res in results.items():
+                want = np.array([prob.sum()]) if "total weight" in name else prob
+                rep.count("scalar_born_checked")
+                if np.any(np.abs(res.imag) > TOL) or np.any(res.real < -TOL):
+                    rep.fail("probability_not_a_nonnegative_real:" + form, dict(case, call=name),
+                             "%s = %s: outcome weights must be squared magnitudes of amplitudes" % (
+                                 name, np.round(res, 6).tolist()))
+                elif not close(res, want):
+                    rep.fail("measure_not_born:scalar:" + form, dict(case, call=name),
+                             "%s = %s, |amplitude|^2 = %s" % (name, np.round(res.real, 6).tolist(),
+                                                              np.round(want, 6).tolist()))
+
+
 # ------------------------------------------------------------------ CQMap expression stream
 
 def rand_dims(rng, n, vals=(2, 2, 3)):
@@ -1752,7 +2020,10 @@ def run(tier, seed, replay=None):
     rep = Report(PROP, tier, seed)
     rep.rule = (
         "random circuits of 1-4 wires and depth <= 8 grown layer by layer from discopy's own boxes "
-        "in three classes: pure (Ket, Bra, gate set incl. rotations, scalars), tp (preparations, "
+        "in three classes: pure (Ket, Bra, gate set incl. rotations, scalar boxes of every form — sqrt(z), "
+        "scalar(z), user subclasses of both — with data positive / negative / imaginary / complex / zero, "
+        "exact and float, of every Python number type: scalar_box:<form>:<region>), tp (preparations, "
+        "global phases = scalar boxes of modulus one such as sqrt(-1), sqrt(1j), scalar(-1), "
         "unitaries, Measure destructive or not / overriding bits or not, Discard, stochastic and "
         "deterministic classical gates, Copy, swaps of bits and qubits) and general (+ MixedState, "
         "Encode variants, Match, daggered Bits/gates, arbitrary classical gates, pure and mixed "
@@ -1777,7 +2048,10 @@ def run(tier, seed, replay=None):
         "different data or data equal to the printed precision; each followed by nothing, Measure, "
         "Measure @ Discard, Discard; neighbour first or base first, the first one once more at "
         "the end) evaluated in order at the end of the run AND in the opposite order by a second "
-        "process; plus a Born-rule stream (random pure states of 1-3 qubits, every "
+        "process; scalar_born (every scalar form x data region, one or two scalar boxes left of / right of "
+        "/ inside a state of 1-2 qubits: amplitudes = state x scalar amplitudes computed from the data, "
+        "doubling, and |amplitude|^2 as non-negative reals from Measure / measure() / get_counts()); "
+        "plus a Born-rule stream (random pure states of 1-3 qubits, every "
         "Measure variant, partial discards, all Encode/MixedState adjoints) and a CQMap expression "
         "stream (then/tensor/dagger/swap/measure/encode/discard/pure/classical/literals over "
         "dimensions 2 and 3, ~10% ill-typed compositions); non-trivial = circuit of >= 2 boxes of "
@@ -1813,8 +2087,9 @@ def run(tier, seed, replay=None):
     ]
     rep.lean = lean_obligations(PROP, thorough=(tier == "thorough"))
     quick = tier == "quick"
-    n_circuits = dict(general=17, tp=13, pure=9) if quick else dict(general=280, tp=220, pure=130)
-    n_born = 4 if quick else 55
+    n_circuits = dict(general=15, tp=12, pure=9) if quick else dict(general=225, tp=185, pure=110)
+    n_born = 3 if quick else 55
+    n_scalar_rounds = 1 if quick else 6
     n_variant_rounds = 1 if quick else 8
     n_late, n_weight, n_classical = (10, 6, 6) if quick else (140, 80, 80)
     n_batch = 8 if quick else 110
@@ -1861,6 +2136,9 @@ def run(tier, seed, replay=None):
         lap("batch_sum")
         born_stream(rep, random.Random(rng.getrandbits(64)), n_born)
         lap("born")
+        scalar_born_stream(rep, drv, random.Random(rng.getrandbits(64)), n_scalar_rounds, budget,
+                           per_round=10 if quick else None)
+        lap("scalar_born")
         cqexpr_stream(rep, drv, random.Random(rng.getrandbits(64)), n_expr)
         lap("cqexpr")
         history_stream(rep, drv, hist_seed, n_history, budget, hist_proc)
